@@ -1,7 +1,7 @@
 /-
   Model.Tsm.Ssm — one segmentation state machine: the code of `SSM`,
   `ClientSSM` and `ServerSSM` (py34/bacpypes/appservice.py, tree AFTER the
-  repairs fixes/Tsm-1 … Tsm-10 and C05-server-first-segment-seq0), transcribed branch for branch.
+  repairs fixes/Tsm-1 … Tsm-10, C05-server-first-segment-seq0 and C05-client-first-ack-segment-seq0), transcribed branch for branch.
 
   Every handler is a function of the transaction's key and body and returns
   `(new body | none = set_state(COMPLETED/ABORTED): removed from its list,
@@ -233,6 +233,7 @@ def clientSegmentedRequest (cfg : Cfg) (now : Nat) (k : Key) (b : Body) (a : Apd
   else if a.ty = 3 then
     if !b.sentAll then clientAbortBoth k abortInvalidApduInThisState
     else if !a.seg then (none, [.confirm k.peer a])
+    else if a.seq ≠ 0 then clientAbortBoth k abortInvalidApduInThisState  -- fix C05-client-first-ack-segment-seq0
     else
       (some { b with ctx := some a, window := some (min a.win cfg.window), lastSeq := 0,
                      initSeq := 0, st := .segConf,
